@@ -93,6 +93,12 @@ def search(run, info):
                     nm = m.group(1)
                     comps = comps[:-1] + ["FUNCTION_BLOCK Helper_%s\nVAR %s : INT; END_VAR\n%s := 2;\nEND_FUNCTION_BLOCK\n"
                                           "PROGRAM %s\nVAR hq : INT; END_VAR\nhq := 3;\nEND_PROGRAM\n" % (nm, nm, nm, nm.upper() + "x")]
+            if code == "P0011":
+                # company that declares the missing task -- in a resource of another configuration, where it does not count
+                comps = comps[:-1] + ["PROGRAM HelperProg_t\nVAR hq : INT; END_VAR\nhq := 3;\nEND_PROGRAM\n"
+                                      "CONFIGURATION HelperCfg_t\n  RESOURCE HelperRes_t ON PLC\n    TASK %s(INTERVAL := T#50ms, PRIORITY := 2);\n"
+                                      "    PROGRAM helper_inst WITH %s : HelperProg_t;\n  END_RESOURCE\nEND_CONFIGURATION\n" % (
+                                          rng.choice(["no_such_task", "NO_SUCH_TASK"]), "no_such_task")]
             files = [("bad.st", ftext)] + [("c%d.st" % k, t) for k, t in enumerate(comps)]
             orders = list(itertools.permutations(range(len(files))))
             if len(orders) > 6:
